@@ -189,6 +189,43 @@ fn render(r: &R) -> String {
     }
 }
 
+/// rendering with only the parentheses the DOCUMENTED priorities of the float table require
+/// (`^` 4, `/` 3, `*` 2, `-` 1, `+` 0; equal operators left to right): several operators share one
+/// level of the deep form, which the fully parenthesised rendering never produces
+fn render_min(r: &R) -> String {
+    fn prio(n: &str) -> Option<i32> {
+        match n {
+            "+" => Some(0),
+            "-" => Some(1),
+            "*" => Some(2),
+            "/" => Some(3),
+            "^" => Some(4),
+            _ => None,
+        }
+    }
+    fn go(r: &R, parent: Option<(i32, bool)>) -> String {
+        match r {
+            Bin(n, a, b) => match prio(n) {
+                // min, max, atan2: operands that are binary applications keep their parentheses
+                None => format!("({} {} {})", go(a, Some((i32::MAX, false))), n, go(b, Some((i32::MAX, false)))),
+                Some(p) => {
+                    let body = format!("{} {} {}", go(a, Some((p, true))), n, go(b, Some((p, false))));
+                    let bare = match parent {
+                        None => true,
+                        // left operand: binds at least as tightly and, among equals, is the same operator;
+                        // right operand: binds strictly tighter
+                        Some((q, left)) => p > q || (left && p == q),
+                    };
+                    if bare { body } else { format!("({})", body) }
+                }
+            },
+            Un(n, a) => format!("{}({})", n, go(a, None)),
+            _ => render(r),
+        }
+    }
+    go(r, None)
+}
+
 const DIFF_UN: &[&str] = &["sqrt", "ln", "log", "log2", "log10", "exp", "sin", "cos", "tan", "asin", "acos", "atan", "sinh", "cosh", "tanh", "asinh", "acosh", "atanh", "-", "+"];
 const DIFF_BIN: &[&str] = &["+", "-", "*", "/", "^"];
 const NODIFF_UN: &[&str] = &["abs", "floor", "cbrt", "signum", "fract", "round", "ceil", "trunc"];
@@ -227,6 +264,34 @@ pub fn gen(r: &mut Rng, _tier: &str, _i: usize, stats: &mut BTreeMap<String, u64
     let flat = r.chance(1, 2);
     // one flat pool in four holds unfolded expressions (parse_wo_compile)
     let wo_pool = flat && r.chance(1, 4);
+    if profile == "default" && r.chance(1, 4) {
+        // "a neutral element that still lists variables" (x*0, x^0, 0/x, (x*0)+1) as an operand of
+        // every operator, on either side
+        let vs1 = *r.pick(var_sets);
+        let e1 = render(&gen_ref(r, vs1, 0, nodiff_pct));
+        let vs2 = *r.pick(var_sets);
+        let e2 = render(&gen_ref(r, vs2, 0, nodiff_pct));
+        let pool = vec![e1, e2, "0.0".to_string(), "1.0".to_string(), "2.0".to_string()];
+        let op = |o: &str, i: usize, j: usize| if flat { format!("b:{}:{}:{}", i, j, hex(o)) } else { format!("{}:{}:{}", o, i, j) };
+        let mut steps = vec![match r.below(4) {
+            0 => op("*", 0, 2),
+            1 => op("*", 2, 0),
+            2 => op("^", 0, 2),
+            _ => op("/", 2, 0),
+        }];
+        if r.chance(1, 2) {
+            steps.push(op(*r.pick(&["+", "*", "-"]), 99, 2 + r.below(2)));
+        }
+        let o = *r.pick(&["+", "-", "*", "/", "^"]);
+        steps.push(if r.chance(1, 2) { op(o, 1, 99) } else { op(o, 99, 1) });
+        if r.chance(1, 2) {
+            let o = *r.pick(&["+", "-", "*", "/", "^"]);
+            steps.push(if r.chance(1, 2) { op(o, r.below(5), 99) } else { op(o, 99, r.below(5)) });
+        }
+        *stats.entry("neutral_with_vars".to_string()).or_insert(0) += 1;
+        let sloppy = r.chance(1, 2);
+        return format!("histf\t{}\t{}\t{}\t{}\t{}", pool.iter().map(|s| hex(s)).collect::<Vec<_>>().join(";"), if flat { if wo_pool { "W" } else { "F" } } else { "D" }, steps.join("|"), r.next() % 1000000, if sloppy { 1 } else { 0 });
+    }
     let nsteps = 1 + r.below(if profile == "diff" || profile == "subs" { 3 } else { 5 });
     let mut steps = vec![];
     let all_bin = ["+", "-", "*", "/", "^", "min", "max", "atan2"];
@@ -278,7 +343,9 @@ pub fn gen(r: &mut Rng, _tier: &str, _i: usize, stats: &mut BTreeMap<String, u64
         *stats.entry(format!("step_{}", kind)).or_insert(0) += 1;
         steps.push(step);
     }
-    format!("histf\t{}\t{}\t{}\t{}", pool.iter().map(|s| hex(s)).collect::<Vec<_>>().join(";"), if flat { if wo_pool { "W" } else { "F" } } else { "D" }, steps.join("|"), r.next() % 1000000)
+    // half of the requests hand the library the minimally parenthesised rendering of the pool
+    let sloppy = r.chance(1, 2);
+    format!("histf\t{}\t{}\t{}\t{}\t{}", pool.iter().map(|s| hex(s)).collect::<Vec<_>>().join(";"), if flat { if wo_pool { "W" } else { "F" } } else { "D" }, steps.join("|"), r.next() % 1000000, if sloppy { 1 } else { 0 })
 }
 
 // a tiny parser for the rendered reference syntax: Num | var | name(expr) | (expr op expr) | (-num)
@@ -435,14 +502,16 @@ pub fn run(f: &[&str]) -> String {
     let wo = f[1] == "W";
     let hist: Vec<String> = if f[2] == "-" { vec![] } else { f[2].split('|').map(|s| s.to_string()).collect() };
     let seed: u64 = f[3].parse().unwrap_or(1);
+    let sloppy = f.get(4) == Some(&"1");
     crate::catch(move || {
         let mut rng = Rng::new(seed);
         let mut pool: Vec<Entry<'static>> = vec![];
         for tx in &texts {
-            let p = if wo { F::parse_wo_compile(tx).map(P::Fl) } else if flat { F::parse(tx).map(P::Fl) } else { D::parse(tx).map(P::De) };
             let chars: Vec<char> = tx.chars().collect();
             let mut pos = 0;
             let reference = parse_ref(&chars, &mut pos);
+            let tx: &'static str = if sloppy { Box::leak(render_min(&reference).into_boxed_str()) } else { tx };
+            let p = if wo { F::parse_wo_compile(tx).map(P::Fl) } else if flat { F::parse(tx).map(P::Fl) } else { D::parse(tx).map(P::De) };
             match p {
                 Ok(p) => {
                     let vars: BTreeSet<String> = p.vars().into_iter().collect();
